@@ -822,7 +822,7 @@ func runC09Corr(ctx *core.Ctx) {
 		}
 	}
 	// ---- seeded random
-	n := ctx.Pick(400, 12000)
+	n := ctx.Pick(250, 12000)
 	for i := 0; i < n; i++ {
 		for _, typ := range c09CustomTypes {
 			v := g.typed(typ)
